@@ -42,12 +42,13 @@ const (
 	QOpenCStream
 	QHugeID
 	QUnaryBadTimeout
+	QTrailerNoStatus
 	numQShapes
 )
 
 var qShapeNames = []string{"no-header", "empty-method", "no-slash", "unknown-service", "unknown-method", "wrong-destination", "unary",
 	"unary-bad-md", "unary-nil-body", "open", "open-bad-md", "open-with-body", "body", "trailer-ok", "trailer-err", "reset", "reset-other",
-	"body+trailer", "status-only", "unary+trailer", "empty", "open-sstream", "open-cstream", "huge-id", "unary-bad-timeout"}
+	"body+trailer", "status-only", "unary+trailer", "empty", "open-sstream", "open-cstream", "huge-id", "unary-bad-timeout", "trailer-no-status"}
 
 type RawReq struct {
 	Shape int `json:"shape"`
@@ -106,6 +107,9 @@ func buildReq(q RawReq, n int) *Rpc {
 		r.Header, r.Body = hdr(methodNames[KBidi]), bytesBody(payload)
 	case QTrailerOK:
 		r.Header, r.Status, r.Trailer = hdr(methodNames[KBidi]), &goatorepo.ResponseStatus{Code: 0, Message: "OK"}, &goatorepo.Trailer{}
+	case QTrailerNoStatus:
+		// README: "status: usually only set on error" - a half-close need not carry one
+		r.Header, r.Trailer = hdr(methodNames[KBidi]), &goatorepo.Trailer{}
 	case QTrailerErr:
 		r.Header, r.Status, r.Trailer = hdr(methodNames[KBidi]), &goatorepo.ResponseStatus{Code: 13, Message: "client gave up"}, &goatorepo.Trailer{}
 	case QReset:
@@ -154,7 +158,7 @@ func genC12(g *rand.Rand, tier string) any {
 			// bias towards conversations that make sense
 			sh := g.IntN(numQShapes)
 			if g.IntN(2) == 0 {
-				sh = []int{QOpen, QBody, QBody, QTrailerOK, QUnary, QReset}[g.IntN(6)]
+				sh = []int{QOpen, QBody, QBody, QTrailerOK, QUnary, QReset, QTrailerNoStatus}[g.IntN(7)]
 			}
 			p.Seq = append(p.Seq, RawReq{Shape: sh, ID: 1 + g.IntN(2)})
 		}
